@@ -45,7 +45,7 @@ type parserWorld struct {
 }
 
 // kernelCode renders the code blocks as calls into the simulation kernel.
-func kernelCode(recv string, withState, viaHelper, globalViaHelper bool) gen.CodeFunc {
+func kernelCode(recv string, withState, viaHelper, globalViaHelper, replaceStore bool) gen.CodeFunc {
 	return func(s gen.SiteInfo) string {
 		gs := recv + ".globalStore"
 		if globalViaHelper {
@@ -69,6 +69,10 @@ func kernelCode(recv string, withState, viaHelper, globalViaHelper bool) gen.Cod
 		case gen.Action:
 			return "{ return k.Act(" + args + ") }"
 		case gen.State:
+			if replaceStore && withState && !viaHelper && s.Site%2 == 0 {
+				// user code may replace the store wholesale (same entries, another map)
+				return "{ " + recv + ".state = k.CopyStore(" + recv + ".state); return k.State(" + args + ") }"
+			}
 			return "{ return k.State(" + args + ") }"
 		}
 		return "{ return k.Pred(" + args + ") }"
@@ -112,7 +116,10 @@ func newGenParser(name string, g *gen.Grammar, flags []string) *genParser {
 	if helpers != "" {
 		hdr = "{\npackage " + name + "\n\nimport k \"verifsim/kernel\"\n" + helpers + "}"
 	}
-	gp.Text = g.Print(gen.PrintOptions{Header: hdr, Code: kernelCode(gp.Receiver, withState, viaHelper, globalViaHelper)})
+	// a quarter of the parsers with state blocks replace the store wholesale in
+	// every other state block
+	replaceStore := (hh.Sum32()/9)%4 == 0
+	gp.Text = g.Print(gen.PrintOptions{Header: hdr, Code: kernelCode(gp.Receiver, withState, viaHelper, globalViaHelper, replaceStore)})
 	return gp
 }
 
@@ -143,6 +150,7 @@ func init() {
 		Flags:       %[4]s,
 		Has:         %[5]s,
 		Prebuild:    verifPrebuild,
+		PrepFile:    verifPrepFile,
 		Parse:       verifParse,
 		Inspect:     verifInspect,
 		G:           func() any { return %[8]s },
@@ -171,6 +179,22 @@ func verifPrebuild(keys []string) {
 		}
 	}
 	verifShared = m
+}
+
+func verifPrepFile(filename string, input []byte) {
+	verifFileOnce.Do(func() {
+		d, e := os.MkdirTemp(os.Getenv("VERIF_PF_DIR"), "pf-")
+		if e != nil {
+			panic(e)
+		}
+		if e := os.Chdir(d); e != nil {
+			panic(e)
+		}
+	})
+	os.MkdirAll(filepath.Dir(filename), 0o755)
+	if e := os.WriteFile(filename, input, 0o644); e != nil {
+		panic(e)
+	}
 }
 
 func verifOpt(o *parsersim.Opts, key string, mk func() Option) Option {
@@ -251,18 +275,8 @@ func verifParse(filename string, input []byte, o *parsersim.Opts, ctx *kernel.Ct
 %[7]s
 	}()
 	if o.UseFile {
-		verifFileOnce.Do(func() {
-			d, e := os.MkdirTemp(os.Getenv("VERIF_PF_DIR"), "pf-")
-			if e != nil {
-				panic(e)
-			}
-			if e := os.Chdir(d); e != nil {
-				panic(e)
-			}
-		})
-		os.MkdirAll(filepath.Dir(filename), 0o755)
-		if e := os.WriteFile(filename, input, 0o644); e != nil {
-			panic(e)
+		if !o.FilePrepared {
+			verifPrepFile(filename, input)
 		}
 		val, err = ParseFile(filename, opts...)
 	} else if o.UseReader {
@@ -402,7 +416,7 @@ func buildParserWorld(scratch, pigeonBin string, specs []*genParser, race bool) 
 			pats = append(pats, "./"+gp.Name)
 		}
 		var err error
-		res, err = rewrite.Packages(dir, rewrite.Options{MapOrder: true, SyncSeam: true, Steps: true, PrintSink: true, SkipPrefix: "verif_"}, pats...)
+		res, err = rewrite.Packages(dir, rewrite.Options{MapOrder: true, SyncSeam: true, ChanSeam: true, Steps: true, PrintSink: true, SkipPrefix: "verif_"}, pats...)
 		if err == nil {
 			break
 		}
